@@ -17,3 +17,44 @@ pub trait DiffHook: Sized {
         Ok(())
     }
 }
+
+/// control B8: an adapter that buffers a pending deletion and may silently drop it
+pub struct Buffering<D: DiffHook> {
+    d: D,
+    del: Option<(usize, usize, usize)>,
+}
+
+impl<D: DiffHook> Buffering<D> {
+    /// bad: `filter` discards the pending deletion when the carried index differs
+    pub fn b8_bad_filter_drops(&mut self, old_index: usize, old_len: usize, new_index: usize) {
+        self.del = self
+            .del
+            .take()
+            .filter(|&(_, _, n)| n == new_index)
+            .map(|(o, l, n)| (o, l + old_len, n))
+            .or(Some((old_index, old_len, new_index)));
+    }
+
+    /// good twin: the pending deletion is always extended or flushed
+    pub fn b8_good_extend(&mut self, old_index: usize, old_len: usize, new_index: usize) -> Result<(), D::Error> {
+        self.del = match self.del.take() {
+            Some((o, l, n)) if n == new_index => Some((o, l + old_len, n)),
+            Some((o, l, n)) => {
+                self.d.delete(o, l, n)?;
+                Some((old_index, old_len, new_index))
+            }
+            None => Some((old_index, old_len, new_index)),
+        };
+        Ok(())
+    }
+}
+
+impl<D: DiffHook> DiffHook for Buffering<D> {
+    type Error = D::Error;
+    fn finish(&mut self) -> Result<(), Self::Error> {
+        if let Some((o, l, n)) = self.del.take() {
+            self.d.delete(o, l, n)?;
+        }
+        self.d.finish()
+    }
+}
